@@ -32,18 +32,28 @@ def validate(steps):
     depth = 0
     subs = set()
     consumed = set()
+    bound = set()
+    bound_to = {}
     live_owners = set()
     for st in steps:
         op = st["op"]
-        if op in ("COPY", "APPLY", "FLATTEN", "DROP") and st.get("c") in consumed:
+        if op in ("COPY", "APPLY", "FLATTEN", "DROP") and (st.get("c") in consumed or st.get("c") in bound):
             return False
         if op == "ADD_SUB" and (st.get("c") in consumed or st.get("child") in consumed):
+            return False
+        if op == "ADD_SUB" and st.get("child") in bound and own.get(st.get("c")) != bound_to.get(st.get("child")):
             return False
         if op == "FLATTEN" and own.get(st.get("c")) in live_owners:
             return False
         if op in ("NEW", "NEW_LIB"):
             if st["c"] in defined:
                 return False
+            if st.get("rel"):
+                rt, par, k = st["rel"]
+                if par not in decl or par in consumed or par in bound or not (0 <= k < nent[own[par]]):
+                    return False
+                bound.add(st["c"])
+                bound_to[st["c"]] = own[par]
             defined.add(st["c"])
             decl.add(st["c"])
             own[st["c"]] = st["c"]
@@ -85,7 +95,7 @@ def validate(steps):
             if own[st["c"]] == own[st["child"]]:
                 return False
             nent[own[st["c"]]] += 1
-            if st["c"] in consumed or st["child"] in consumed:
+            if st["c"] in consumed or st["child"] in consumed or st["c"] in bound or st["child"] in bound:
                 return False
             live_owners.add(own[st["c"]])
             # the nested circuit: operations may still be added through it and it may be looked at, nothing else
@@ -100,6 +110,8 @@ def validate(steps):
         elif op in STRUCT_ALIAS:
             if st["c"] not in defined or st["as"] in defined:
                 return False
+            if st["c"] in bound:
+                bound.add(st["as"])
             defined.add(st["as"])
             own[st["as"]] = own[st["c"]]
             if st["c"] in decl:
@@ -119,7 +131,7 @@ def validate(steps):
             if st["c"] not in defined:
                 return False
         elif op == "OBS":
-            if st["c"] not in defined:
+            if st["c"] not in defined or st["c"] in bound:
                 return False
             if st["what"] in ("PLOT", "LAST") and st["c"] not in decl:
                 return False
@@ -139,7 +151,7 @@ def remove_step(steps, idx):
             changed = False
             keep = []
             for s in out:
-                refs = {s.get("c"), s.get("child"), s.get("areg")} - {None}
+                refs = {s.get("c"), s.get("child"), s.get("areg"), (s.get("rel") or [None, None])[1] if s.get("op") == "NEW" else None} - {None}
                 if refs & gone:
                     if s.get("as"):
                         if s["as"] not in gone:
@@ -219,6 +231,13 @@ def _reindex(orig, out):
                 s["rel"] = [s["rel"][0], newk[tgt]]
             else:
                 s["rel"] = None
+        if s["op"] == "NEW" and s.get("rel"):
+            o = own.get(o_st["rel"][1], o_st["rel"][1])
+            tgt = (o, o_st["rel"][2])
+            if tgt in newk:
+                s["rel"] = [s["rel"][0], s["rel"][1], newk[tgt]]
+            else:
+                s.pop("rel")
     return out
 
 
